@@ -18,6 +18,7 @@ from ..model import strip, strip_all, walk, show, notpl, is_call, call_args
 from ..bits import BV, Evaluator, Unsupported, bconst, bvar, bshow
 from ..fields import catalog_input_hook, byte_bits, expected_bv, compare, eval_prefix
 from ..flow import folded
+from .. import flow
 
 EXPLANATION = (
     "Static decision of the field-decoding clauses of C02, exhaustive over all 2^64 metadata values by "
@@ -315,28 +316,82 @@ def rule_crc(prog, fixture=False):
         regs = _register_field(fn)
         for g_ in prog.fn("DFS::CRC16Base::update_bit", required=False):
             regs = regs or _register_field(g_)
-        loops = [n for n in fn.body.get("c", []) if n.get("k") in ("ForStmt", "WhileStmt")]
+        top = fn.body.get("c", [])
+        loops = [n for n in top if n.get("k") in ("ForStmt", "WhileStmt")]
         if len(regs) != 1 or len(loops) != 1 or "body" not in loops[0].get("parts", {}):
             r.undecided.append("%s: update() is not a single loop over the bytes that updates the CRC register" % fn.loc(fn.body))
             continue
         (reg, w), = regs.items()
         lp = loops[0]
-        # exactly one byte is consumed per pass: one dereference of the cursor, advanced once
-        derefs = [n for n in walk(lp) if n.get("k") == "UnaryOperator" and n.get("op") == "*"] + \
-                 [n for n in walk(lp) if n.get("k") == "ArraySubscriptExpr"]
-        incs = [n for n in walk(lp) if n.get("k") == "UnaryOperator" and n.get("op") in ("++",) and not (n.get("w"))]
+        body = lp["c"][lp["parts"]["body"]]
         d_bits = [bvar("d.%d" % i) for i in range(8)]
         ev = Evaluator(prog, lambda base, idx, width: BV(d_bits + [bconst(0)] * (max(width, 8) - 8)), max_inline=6)
-        env0 = {reg: BV(sym_c + [bconst(0)] * (w - 16))}
         want = list(sym_c)
         for i in range(7, -1, -1):
             want = _spec_step(want, d_bits[i])
-        body = lp["c"][lp["parts"]["body"]]
-        check(fn, reg, w, lambda: ev._stmts(fn, [body], [({}, dict(env0), None)], 0), want,
-              "eight CCITT steps per byte, most significant bit first")
-        if len(incs) != 1:
+
+        def one_byte(fn=fn, lp=lp, body=body, top=top, ev=ev, reg=reg, w=w):
+            """The function's effect on the register when its loop body runs once: the statements before the loop
+            (guards that leave for an empty range are not taken; declarations the domain cannot evaluate stay
+            unknown), one pass of the body, the statements after the loop."""
+            paths = [({}, {reg: BV(sym_c + [bconst(0)] * (w - 16))}, None)]
+            k = top.index(lp)
+            for st in top[:k]:
+                try:
+                    paths = ev._stmts(fn, [st], paths, 0)
+                except Unsupported:
+                    leaves = st.get("k") == "IfStmt" and "else" not in st.get("parts", {}) and \
+                        all(x.get("k") in ("ReturnStmt", "CompoundStmt", "IfStmt") or x is st or
+                            any(x is y for y in walk(st["c"][st["parts"]["cond"]])) for x in walk(st))
+                    if leaves or st.get("k") == "DeclStmt":
+                        continue
+                    raise
+            if "init" in lp.get("parts", {}):
+                try:
+                    paths = ev._stmts(fn, [lp["c"][lp["parts"]["init"]]], paths, 0)
+                except Unsupported:
+                    pass
+            paths = ev._stmts(fn, [body], paths, 0)
+            paths = [(a, e, None) for a, e, ret in paths]
+            for st in top[k + 1:]:
+                if st.get("k") == "ReturnStmt":
+                    break
+                paths = ev._stmts(fn, [st], paths, 0)
+            return paths
+        check(fn, reg, w, one_byte, want, "eight CCITT steps per byte, most significant bit first")
+        # exactly one byte is consumed per pass: the cursor (pointer or index) through which the byte is read is
+        # advanced exactly once in the loop
+        cursors = set()
+        for n in walk(body):
+            if n.get("k") == "UnaryOperator" and n.get("op") == "*":
+                d_ = flow.lvalue_root(n["c"][0])
+                if d_ is None:
+                    ptrs = [y for y in walk(n["c"][0]) if y.get("k") == "DeclRefExpr" and not y.get("w")]
+                    d_ = ptrs[0]["d"] if ptrs else None
+                if d_ is not None:
+                    cursors.add(d_)
+            if n.get("k") == "ArraySubscriptExpr":
+                idx = strip_all(n["c"][1])
+                if idx is not None and idx.get("k") == "DeclRefExpr":
+                    cursors.add(idx["d"])
+                else:
+                    d_ = flow.lvalue_root(n["c"][0])
+                    if d_ is not None:
+                        cursors.add(d_)
+        adv = {}
+        for n in walk(lp):
+            if n.get("k") == "UnaryOperator" and n.get("op") in ("++", "--"):
+                d_ = flow.lvalue_root(n["c"][0])
+                if d_ in cursors:
+                    adv[d_] = adv.get(d_, 0) + (1 if n["op"] == "++" else 99)
+            if n.get("k") == "CompoundAssignOperator" and flow.lvalue_root(n["c"][0]) in cursors:
+                d_ = flow.lvalue_root(n["c"][0])
+                adv[d_] = adv.get(d_, 0) + (1 if n.get("op") == "+=" and folded(n["c"][1]) == 1 else 99)
+        moved = [d_ for d_ in cursors if adv.get(d_)]
+        if len(moved) != 1 or adv[moved[0]] != 1:
             r.add("%s::%s::cursor" % (fn.relfile(), fn.qn), fn.loc(lp), False,
-                  "the byte cursor is advanced %d times per pass of the loop in update(), not once" % len(incs))
+                  "the position from which update() reads its byte is not advanced exactly once per pass of the loop "
+                  "(%s)" % (", ".join("%d" % adv.get(d_, 0) for d_ in cursors) or "no cursor found"))
     inits = {"DFS::CCITT_CRC16::init": 0xFFFF, "DFS::TapeCRC::init": 0}
     for gid, g in prog.globals.items():
         if g["q"] in inits:
